@@ -32,7 +32,8 @@ RULE = ("job = seed -> TLS 1.3 (all five suites, +- client certificate for "
         ' The control traffic may run on a resumed connection (ID / ticket / PSK) and after a HelloRetryRequest handshake; step invariant: the server session names a new client chain only after the post-handshake Finished has been accepted (small server record limits spread the flight over several records).'
         ' Heartbeats sized on / next to the record boundary; post-handshake auth with a client that declines (empty Certificate), with a request that does not offer certificate compression, and replay of an already answered request.'
         ' Generator protocol oracle: a read that processes control messages (post-handshake auth, KeyUpdate, tickets) yields 0/1 and then exactly one result, the data.  Illegal control also: KeyUpdate with request_update outside {0,1} sent through the API (keys in step).'
-        ' Illegal control also: a NewSessionTicket sent by the client.')
+        ' Illegal control also: a NewSessionTicket sent by the client.'
+        ' Family ku_race: a KeyUpdate whose write is parked on a stalled transport while the reader of the same connection processes one or two KeyUpdates of the peer; afterwards data flows both ways, both rekey once more, secrets agree.')
 LEVEL_TEXT = ("Seeded exploration of bounded control/data histories with "
               "random interleaving and delivery; the key-schedule oracle is "
               "an independent HKDF written on stdlib hmac.")
@@ -48,7 +49,7 @@ PROBES = ["key_update", "key_update_requested", "simultaneous_keyupdate",
           "illegal_finished", "ku_not_aligned", "nst", "secrets_checked",
           "pha_order_checked", "resumed", "hrr",
           "heartbeat_record_boundary", "pha_declined", "pha_replay",
-          "ku_bad_value", "nst_from_client"]
+          "ku_bad_value", "nst_from_client", "ku_race"]
 COMPONENTS_REAL = ["tlslite post-handshake paths: KeyUpdate, PHA, "
                    "heartbeat, NewSessionTicket processing in readAsync"]
 COMPONENTS_STUB = ["socket", "os.urandom", "clock"]
@@ -60,14 +61,120 @@ TLS13 = [0x1301, 0x1302, 0x1303, 0x1304, 0x1305]
 def plan(tier, base_seed):
     n = {"quick": 900, "thorough": 200000}[tier]
     jobs = [{"seed": base_seed * 1000003 + i} for i in range(n)]
+    # a KeyUpdate whose write is parked on a stalled transport while the
+    # reader of the same connection processes the peer's KeyUpdate(s)
+    race = []
+    for sid in (0x1301, 0x1302, 0x1303):
+        for actor in "cs":
+            for stall in (0, 3, 15):
+                for npeer in (1, 2):
+                    race.append({"seed": base_seed * 1000003 + 500000 +
+                                 len(race), "fam": "ku_race",
+                                 "race": [sid, actor, stall, npeer]})
+    jobs = jobs[:3] + race + jobs[3:]
     for j in jobs[:3]:
         j["keep"] = True
     return jobs
 
 
+def run_ku_race(job):
+    """Writer lane: send_keyupdate_request() parks on would-block.  Reader
+    lane: processes `npeer` KeyUpdates (not requesting an answer, so the
+    reader itself never writes) and data of the peer.  Then the parked
+    KeyUpdate completes, both sides exchange data, the peer rekeys once
+    more and data flows again: secrets in step, nothing lost."""
+    from sim.loop import Lane
+    seed = job["seed"]
+    sid, actor, stall, npeer = job["race"]
+    peer = "s" if actor == "c" else "c"
+    sc = scen.suite_scenario(sid, (3, 4))
+    ch = kernel.Chooser(streams={})
+    sim = nodes.new_run(seed, chooser=ch, max_steps=100000, sched="first")
+    pair = nodes.Pair(sim, sc, policy="ideal")
+    viol = []
+    probes = {"ku_race": 1, "tls13": 1}
+    ctx = "[ku_race=%s]" % json.dumps(job["race"])
+
+    def v(rule, sig, msg):
+        viol.append({"rule": rule, "sig": sig, "msg": msg + " " + ctx})
+    oc, os_, st = pair.handshake()
+    if not (oc.kind == "ok" and os_.kind == "ok"):
+        raise RuntimeError("ku_race handshake failed: %r %r" % (oc.exc,
+                                                                os_.exc))
+    eps = {"c": pair.c, "s": pair.s}
+    A, P = eps[actor], eps[peer]
+    # drain tickets so that later reads see data only
+    if actor == "c":
+        P.start(("w",), lambda: P.conn.writeAsync(b"x"))
+        sim.run()
+        A.start(("r",), lambda: A.conn.readAsync(None, 1))
+        sim.run()
+    out_pipe = pair.link.c2s if actor == "c" else pair.link.s2c
+    A.sock.stall_after = len(out_pipe.sent_log) + stall
+    W = Lane(A)
+    ow = W.start(("ku",), lambda: A.conn.send_keyupdate_request(0))
+    while W.op is not None and W.blocked != "w":
+        W.step()
+    parked = W.op is not None
+    for i in range(npeer):
+        P.start(("ku",), lambda: P.conn.send_keyupdate_request(0))
+        sim.run(until=lambda: P.op is None)
+        P.start(("w",), lambda: P.conn.writeAsync(b"p%d" % i))
+        sim.run(until=lambda: P.op is None)
+        r = A.start(("r",), lambda: A.conn.readAsync(None, 2))
+        while A.op is not None:
+            A.step()
+            sim._deliver()
+        if r.kind != "ok" or bytes(r.value) != b"p%d" % i:
+            v("ku_race", "read_during_park|%s" % (r.kind),
+              "data after the peer's KeyUpdate #%d: %r" % (
+                  i, r.exc if r.kind == "exc" else r.value))
+    A.sock.stall_after = None
+    sim.run()
+    if ow.kind != "ok":
+        v("ku_race", "own_keyupdate|%s" % ow.kind, "own KeyUpdate: %r" %
+          (ow.exc,))
+    # both directions after everything settled, then one more peer rekey
+    script = [[actor, "w", b"a1"], [peer, "r", 2], [peer, "ku"],
+              [peer, "w", b"b1"], [actor, "r", 2], [actor, "ku"],
+              [actor, "w", b"a2"], [peer, "r", 2]]
+
+    def op_gen(ep, op):
+        if op[1] == "w":
+            return lambda: ep.conn.writeAsync(op[2])
+        if op[1] == "r":
+            return lambda: ep.conn.readAsync(None, op[2])
+        return lambda: ep.conn.send_keyupdate_request(0)
+    st = sim_script.run_script(sim, eps, script, op_gen)
+    bad = [(w, o.desc, o.exc) for w in "cs" for o in eps[w].history[1:]
+           if o.kind == "exc"]
+    if bad or st != "idle":
+        v("ku_race", "after|%s" % (type(bad[0][2]).__name__ if bad else st),
+          "traffic after the interleaved KeyUpdates failed: %r status=%s" %
+          (bad, st))
+    s_a, s_p = A.conn.session, P.conn.session
+    for f in ("cl_app_secret", "sr_app_secret"):
+        if bytes(getattr(s_a, f)) != bytes(getattr(s_p, f)):
+            v("ku_race", "secrets|" + f, "%s differs between the two ends "
+              "after a KeyUpdate that was parked while the peer rekeyed" % f)
+    key = hashlib.sha256(json.dumps(job["race"]).encode()).hexdigest()
+    h = hashlib.sha256()
+    h.update(bytes(pair.link.c2s.wire_log))
+    h.update(bytes(pair.link.s2c.wire_log))
+    h.update(json.dumps([x["sig"] for x in viol]).encode())
+    return {"violations": viol, "nontrivial": parked, "key": key,
+            "digest": h.hexdigest(), "faults": dict(sim.stats),
+            "probes": probes, "steps": sim.steps, "order": "",
+            "states": ["%s/ku_race" % sid], "streams": {},
+            "inconclusive": False,
+            "sample": {"scenario": sc, "race": job["race"]}}
+
+
 def run(job, streams=None):
     from tlslite.errors import TLSLocalAlert
     from tlslite import messages as M
+    if job.get("fam") == "ku_race":
+        return run_ku_race(job)
     seed = job["seed"]
     ch = kernel.Chooser(seed=seed) if streams is None else \
         kernel.Chooser(streams=streams)
